@@ -408,7 +408,53 @@ pub fn check(ctx: &mut Ctx) {
     ctx.max_shrink_iters = 150;
     ctx.random("cli-vs-library", 420, 5_000, 60_000, gen, oracle);
     defaults_contribute_nothing(ctx);
+    offset_boundaries(ctx);
     let _ = ref_tags;
+}
+
+/// The offset option reaches the library unchanged: for every quarter-hour offset -12:00..+14:00 in both spellings, an element
+/// that expires one second before / exactly at / one second after the current instant gets the library's decision.
+fn offset_boundaries(ctx: &mut Ctx) {
+    if ctx.failed() {
+        return;
+    }
+    let now = epoch(2024, 6, 1, 15, 0, 0);
+    let mut n = 0u64;
+    for q in -48i64..=56 {
+        let ofs = q * 900;
+        for colon in [true, false] {
+            let spelling = offset_text(ofs, colon);
+            for d in [-1i64, 0, 1] {
+                let to = wall(now + d, ofs);
+                let src = format!("a<!-- <time-limited to=\"{to}\"> -->X<!-- </time-limited> -->b\n");
+                let cfg = Cfg { ds: DEF_DS.into(), de: DEF_DE.into(), tl_tag: DEF_TL.into(), rm_tag: DEF_RM.into(), now, offset: spelling.clone(), targets: vec![] };
+                let expected = match call_clean(&src, &cfg) {
+                    Ok(e) => e,
+                    Err(p) => {
+                        ctx.failure = Some(Failure { broken: false, sub: "offset-boundaries".into(), case: json!({"src": src, "offset": spelling}), tape: None, message: format!("the library call itself failed: {p}") });
+                        return;
+                    }
+                };
+                let args = vec![format!("--time-limited-time-offset={spelling}"), format!("--time-limited-current={}", rfc3339(now, if q % 2 == 0 { 0 } else { 9 * 3600 }))];
+                let out = match run_cli(&args, Some(src.as_bytes()), &[], None) {
+                    Ok(o) => o,
+                    Err(e) => {
+                        ctx.inconclusive = Some(e);
+                        return;
+                    }
+                };
+                n += 1;
+                let got = String::from_utf8_lossy(&out.stdout).to_string();
+                if out.status != 0 || got != expected {
+                    ctx.failure = Some(Failure { broken: false, sub: "offset-boundaries".into(), case: json!({"args": args, "stdin": src, "expect_stdout": expected}), tape: None, message: format!("chiritori {:?} on {:?}: exit {} output {:?}; the library gives {:?} for offset {:?} at the same instant (to = now{:+}s)", args, src, out.status, got, expected, spelling, d) });
+                    return;
+                }
+            }
+        }
+    }
+    ctx.stats.evaluations += n;
+    ctx.stats.counted += n;
+    ctx.subs_run.push(json!({"sub": "offset-boundaries", "process_runs": n, "rule": "105 quarter-hour offsets x 2 spellings x to = now-1s / now / now+1s: the binary's output equals the library's"}));
 }
 
 /// Option defaults contribute no targets: a marker named like any `[default: ...]` string of --help (or
@@ -474,7 +520,16 @@ fn defaults_contribute_nothing(ctx: &mut Ctx) {
     ctx.subs_run.push(json!({"sub": "defaults-contribute-nothing", "cases": n, "help_defaults": defaults}));
 }
 
-pub fn replay(_sub: &str, case: &Value, obs: &mut Obs) -> Result<Verdict, String> {
+pub fn replay(sub: &str, case: &Value, obs: &mut Obs) -> Result<Verdict, String> {
+    if sub == "offset-boundaries" {
+        let args: Vec<String> = serde_json::from_value(case["args"].clone()).map_err(|e| e.to_string())?;
+        let stdin = case["stdin"].as_str().unwrap_or("").to_string();
+        let expect = case["expect_stdout"].as_str().unwrap_or("").to_string();
+        let out = run_cli(&args, Some(stdin.as_bytes()), &[], None)?;
+        let got = String::from_utf8_lossy(&out.stdout).to_string();
+        obs.eval();
+        return Ok(if out.status != 0 || got != expect { Verdict::Fail(format!("chiritori {args:?} on {stdin:?}: exit {} output {got:?}, the library gives {expect:?}", out.status)) } else { Verdict::Pass });
+    }
     replay_case::<CliCase, _>(case, obs, |c, obs| {
         obs.eval();
         oracle(c, obs)
